@@ -362,12 +362,12 @@ impl Node {
                 let mut var_slot_map: HashMap<String, (JsIdent, JsIdent)> = HashMap::new();
                 for slot_value_name in var_slot_names.iter() {
                     let var_scope = w.declare_var_on_top_scope_init(|w, var_scope| {
-                        write!(w, "X(V).{}", slot_value_name)?;
+                        write!(w, "X(V)[{}]", gen_lit_str(slot_value_name))?;
                         Ok(var_scope)
                     })?;
                     let var_update_path_tree =
                         w.declare_var_on_top_scope_init(|w, var_update_path_tree| {
-                            write!(w, "C?!0:W.{}", slot_value_name)?;
+                            write!(w, "C?!0:W[{}]", gen_lit_str(slot_value_name))?;
                             Ok(var_update_path_tree)
                         })?;
                     var_slot_map.insert(slot_value_name.clone(), (var_scope, var_update_path_tree));
